@@ -120,6 +120,25 @@ def run(F, run, tier):
         _, ok = call("purge_leading", [Pm], inst, "R13.1")
         if ok:
             run.check(PI.coeffs(Pm) == list(a), "R13.1", "Polynomial::purge_leading", "trims-zeros:" + inst, F.loc(M["purge_leading"]), "purge_leading gives %s" % PI.coeffs(Pm))
+    # complex coefficients: the negligibility test must look at both parts
+    for n in (2, 3, 4):
+        for kind, cs in (("imaginary-lead", PI.with_imaginary_lead("a", n)), ("complex", PI.csymbols("a", n))):
+            inst = "%s,len=%d" % (kind, n)
+            Pm = PI.poly(list(cs))
+            _, ok = call("purge_leading", [Pm], inst, "R13.1")
+            if ok:
+                run.check(len(PI.coeffs(Pm)) == n, "R13.1", "Polynomial::purge_leading", "keeps-non-negligible:" + inst, F.loc(M["purge_leading"]),
+                          "purge_leading removes a leading coefficient that is not negligible (%s): %d of %d coefficients left" % (kind, len(PI.coeffs(Pm)), n),
+                          sample="purge_leading keeps %s" % inst)
+            Pm = PI.poly(list(cs) + [sp.Integer(0)])
+            _, ok = call("purge_leading", [Pm], inst + "+0", "R13.1")
+            if ok:
+                run.check(len(PI.coeffs(Pm)) == n, "R13.1", "Polynomial::purge_leading", "trims-only-zeros:" + inst, F.loc(M["purge_leading"]),
+                          "purge_leading on (%s, 0) leaves %d coefficients, expected %d" % (kind, len(PI.coeffs(Pm)), n))
+            v, ok = call("evaluate", [PI.poly(list(cs)), x], inst, "R13.2")
+            if ok:
+                run.check(sym.is_zero(sp.expand(v - poly_expr(cs, x))), "R13.2", "Polynomial::evaluate", "horner:" + inst, F.loc(M["evaluate"]), "evaluate on complex coefficients is not Σ c_k x^k")
+            v, ok = call("make_complex", [PI.poly(list(cs))], inst, "R13.4") if "make_complex" in M else (None, False)
     Pm = PI.poly([sp.Integer(0), sp.Integer(0)])
     _, ok = call("purge_leading", [Pm], "zero", "R13.1")
     if ok:
